@@ -120,6 +120,7 @@ type Exec struct {
 	opaque   map[string]bool
 	zeroRow  *Term
 	headRefs []*Term
+	wrapSigned bool
 }
 
 type Frame struct {
@@ -285,6 +286,9 @@ func (x *Exec) nameBig(t *Term, hint string) *Term {
 	}
 	v := x.eng.FreshVar(strings.SplitN(hint, "!", 2)[0], t.S)
 	x.vc.Assume(App("=", SBool, v, t))
+	if t.S.K == KInt {
+		IntDefs[v.Name] = t
+	}
 	return v
 }
 
@@ -454,7 +458,15 @@ func (fr *Frame) lookupIn(v ssa.Value, n *vnode) *Val {
 		}
 	}
 	if len(live) == 0 {
-		panic(fmt.Sprintf("lookup of %s (%s) reached a node with no live predecessors in %s block %d", v.Name(), v, fr.fn, n.b.Index))
+		// the defining block was pruned as unreachable by constant folding while this use was not:
+		// an arbitrary value is a sound over-approximation
+		fr.x.eng.Note(fmt.Sprintf("value %s in %s: defining block pruned, treated as arbitrary", v.Name(), fr.fn))
+		res := fr.x.freshVal("pruned$"+v.Name(), v.Type())
+		if n.memo == nil {
+			n.memo = map[ssa.Value]*Val{}
+		}
+		n.memo[v] = res
+		return res
 	}
 	var res *Val
 	if len(live) == 1 {
